@@ -31,8 +31,9 @@ MeshVerdict(p, r, gd) ==
   IF r.offgrid THEN "REJECT OnGrid" ELSE
   IF ~RunShape(r) THEN "REJECT Shape" ELSE
   IF ~ValidFaces(ids, r.F) THEN "REJECT ValidFaces" ELSE
-  IF ~EdgeOnce(r.F) THEN "REJECT EdgeOnce" ELSE
-  IF ~EdgeTwin(r.F) THEN "REJECT EdgeTwin" ELSE
+  LET E == DirEdges(r.F) IN
+  IF ~EdgeOnceE(E, r.F) THEN "REJECT EdgeOnce" ELSE
+  IF ~EdgeTwinE(E) THEN "REJECT EdgeTwin" ELSE
   IF ~DistinctVertices(r.V) THEN "REJECT DistinctVertices" ELSE
   IF ~OnLevel(p, r.V) THEN "REJECT OnLevel" ELSE
   IF ~EdgeCover(p, r.V) THEN "REJECT EdgeCover" ELSE
@@ -95,13 +96,17 @@ SurfVerdict(t) ==
   IF t.offgrid THEN "REJECT OnGrid" ELSE
   IF ~RunShape(t) THEN "REJECT Shape" ELSE
   IF ~ValidFaces(ids, t.F) THEN "REJECT ValidFaces" ELSE
-  IF ~EdgeOnce(t.F) THEN "REJECT EdgeOnce" ELSE
-  IF ~EdgeTwin(t.F) THEN "REJECT EdgeTwin" ELSE
+  LET E == DirEdges(t.F) IN
+  IF ~EdgeOnceE(E, t.F) THEN "REJECT EdgeOnce" ELSE
+  IF ~EdgeTwinE(E) THEN "REJECT EdgeTwin" ELSE
+  IF t.F = <<>> THEN "REJECT EmptyMesh" ELSE
   IF BSign(SignedVol6(t.V, t.F)) # 1 THEN "REJECT SurfOriented" ELSE
   IF ~(\A i \in ids : InBoxPt(t, t.V[i])) THEN "REJECT InBox" ELSE
-  LET own == [i \in DOMAIN t.own |-> InsideMesh(t.V, t.F, t.own[i])]
-      nin == {i \in DOMAIN t.nbr : InBoxPt(t, t.nbr[i])}          \* others are outside the box, hence outside
-      nb == [i \in nin |-> InsideMesh(t.V, t.F, t.nbr[i])]
+  LET FB == FaceBoxes(t.V, t.F)
+      mb == MeshBox(FB)
+      own == [i \in 1..Len(t.own) |-> InsideMesh(t.V, t.F, FB, mb, t.own[i])] \o <<>>
+      nb == [i \in 1..Len(t.nbr) |-> InsideMesh(t.V, t.F, FB, mb, t.nbr[i])] \o <<>>
+      nin == DOMAIN nb
   IN
   IF \E i \in DOMAIN own : own[i] = 0 THEN "REJECT EnclosesOwnAtoms" ELSE
   IF \E i \in nin : nb[i] = 1 THEN "REJECT ExcludesNeighbourAtoms" ELSE
@@ -115,6 +120,7 @@ SurfVerdict(t) ==
 TrendVerdict(t) ==
   LET n == Len(t.seps) IN
   IF ~(n >= 2 /\ Len(t.res) = n /\ \A i \in 1..(n-1) : t.seps[i] > t.seps[i+1]) THEN "OOD separations not decreasing" ELSE
+  IF ~(t.bmax < t.iso) THEN "OOD level set reaches the sampling box" ELSE
   IF t.exc # "" THEN "REJECT Raised" \o KnownGetCmap(t) ELSE
   IF \E i \in 1..(n-1) : 4 * t.res[i+1] > 5 * t.res[i] THEN "REJECT LevelResidualTrend" ELSE
   IF 2 * t.res[n] > t.res[1] THEN "REJECT LevelResidualConverges" ELSE
